@@ -47,6 +47,10 @@ CHECKS = {
  'C07': dict(engine='A', technique='bounded model checking (cbmc/SAT) of the real task-graph construction (make_hydro_tasks, set_dependencies, reset_hydro_tasks) on sub-grids wired by the real create_subgrid, probe task / sub-grid symbolic',
    text='Static well-formedness of the constructed hydro task graph for every listed layout and all 8 periodicity combinations: children valid and layered (acyclic), unfinished-parent counters == in-degree (so a task is released exactly when all parents finished), start tasks == gradient sweeps, lock set == sub-grids touched with distinct ordered locks, every face covered exactly once per phase. The dynamic clauses (exactly once, mutual exclusion, termination under all interleavings) rest on these facts plus the C08 primitives; that composition is a paper argument, not machine-checked.',
    note='Layouts: quick 1x1x1, 2x1x1, 1x2x1, 1x1x2 (all 8 flag combinations) and 2x2x2 (none/all periodic); thorough adds 8 more layouts up to 3x3x1. Sub-grid constructor stubbed (geometry ints, lock, task slots). Outside: the worker loop under all interleavings for 3..16 threads, larger layouts, liveness.', ref='DESIGN.md section 5 C07'),
+
+ 'C09': dict(engine='B', technique='symbolic execution (z3, term level) of the real write_restart_file / restart constructors against a typed tape model of the I/O classes',
+   text='Unit-level necessary condition: for each encodable restartable component (IonizationVariables, HydroVariables, Box/CoordinateVector, DensitySubGrid/HydroDensitySubGrid built by the ordinary constructor; TimeLine and RandomGenerator under C19/C13) the restarted object equals the dumped one field by field INCLUDING derived fields, read order/types match the write, and write(read(write(x))) == write(x), for all field values.',
+   note='Partial: the headline clause (a whole run dumped at step k continues bit-identically), chains of restarts, optional components and string/map based state (ParameterFile, YAMLDictionary) are outside. Sub-grids of 1-3 cells.', ref='DESIGN.md section 5 C09'),
 }
 NA = {
 }
